@@ -873,7 +873,7 @@ func C15(ctx *core.Ctx) error {
 	sort.Strings(names)
 	for _, k := range names {
 		a := stats[k]
-		groupsOut[k] = map[string]int{"dealt": a.ok, "refused": a.refused, "create_panics_degenerate": a.panics, "degenerate_dealings": a.degenerate, "verify_calls": a.verifies,
+		groupsOut[k] = map[string]int{"dealt": a.ok, "refused": a.refused, "create_panics_degenerate": a.panics, "degenerate_dealings_incl_create_panics": a.degenerate, "verify_calls": a.verifies,
 			"reconstruct_calls": a.recons, "reconstruct_with_at_most_t_shares": a.fewer, "of_which_returned_the_secret": a.fewerHits,
 			"other_id_with_equal_share_value": a.coinc, "congruent_id_or_share_accepted": a.alias, "dealings_with_drift": a.drift}
 	}
